@@ -50,6 +50,16 @@ def run(chk: Check):
     foot = insts_in_func(chk, ctx, "footer")
     if not foot:
         raise AnalysisError("ANCHOR-VANISHED read_footer reads no footer")
+    # a footer parsed after seek(-n, END) has only n bytes in front of the end of the file: the struct must fit
+    from ..rulelib import layout_of, locate_struct
+
+    _var, lay = layout_of(chk, CREL)
+    fst = locate_struct(lay, CREL, "footer")
+    offs = sorted(-a[1] for a, w, _ in got if S.is_const(a) and S.is_const(w) and w[1] == 2 and isinstance(a[1], int) and a[1] < 0)
+    if fst is not None and offs:
+        chk.decide(fst.size <= offs[0], "K-CONSUME", "footer-fits-behind-every-seek", legacy_or(got, ctx),
+                   f"the parsed footer structure is {fst.size} bytes; the shortest distance to the end of the file it is parsed at is {offs[0]}"
+                   + ("" if fst.size <= offs[0] else ": parsing a legacy footer runs past the end of the file (EOFError), such images cannot be opened"))
     features = fld(chk, foot[0], CREL, "footer", "features")
     legacy = [s for a, w, s in got if S.is_const(a) and a[1] == -511]
     if legacy:
@@ -116,6 +126,10 @@ def run(chk: Check):
     if not bat_new:
         raise AnalysisError("ANCHOR-VANISHED DynamicDisk.__init__ builds no BlockAllocationTable")
     bargs = R.expr(dctx, bat_new[0])[2]
+    okb = len(bargs) == 3 and bargs[1] == env["table_offset"] and bargs[2] == env["max_entries"]
+    chk.decide(okb, "K-PROV", "bat:constructed-from-header", bat_new[0],
+               "BlockAllocationTable(fh, header.table_offset, header.max_table_entries): location and entry count are the header's, untransformed",
+               found=str([S.show(a)[:100] for a in bargs]))
     binds = {("p", f"{REL}::BlockAllocationTable.__init__", i + 1): a for i, a in enumerate(bargs)}
     for s in calls_named(ctx, "seek"):
         got_t = S.subst(R.expr(ctx, s.args[0]), binds)
@@ -135,6 +149,8 @@ def run(chk: Check):
     # unallocated marker and bound check: decision table over the raw entry value
     rets = [n for n in ast.walk(ctx.func) if isinstance(n, ast.Return)]
     raises = [n for n in ast.walk(ctx.func) if isinstance(n, ast.Raise)]
+    if not raises:
+        chk.violated("K-GATE", "bat:index-bound", ctx.func, "no block index is refused any more: an index beyond the table is answered instead of raising")
     if raises:
         conds = [(S.subst(t, binds), p) for t, p in conds_sym(chk, ctx, raises[0])]
         me = env["max_entries"]
@@ -233,3 +249,10 @@ def run(chk: Check):
     chk.require("K-SPLIT", 4)
     chk.require("K-TYPESTATE", 3)
     chk.require("K-LAYOUT", 3)
+
+
+def legacy_or(got, ctx):
+    for a, w, s_ in got:
+        if S.is_const(a) and a[1] == -511:
+            return s_
+    return ctx.func
